@@ -66,7 +66,23 @@ type anteH struct {
 func anteBalance() sdk.Coins {
 	return sdk.NewCoins(sdk.NewCoin("ukex", sdkmath.NewInt(1_000_000_000_000)), sdk.NewCoin("frozen", sdkmath.NewInt(1_000_000_000)),
 		sdk.NewCoin("ueth", sdkmath.NewInt(1_000_000_000)), sdk.NewCoin("ubtc", sdkmath.NewInt(1_000_000_000)), sdk.NewCoin("xeth", sdkmath.NewInt(1_000_000_000)),
-		sdk.NewCoin("tka", sdkmath.NewInt(1_000_000_000)))
+		sdk.NewCoin("tka", sdkmath.NewInt(1_000_000_000)),
+		// look-alike denominations: different coins for the bank, registered nowhere, on no freeze list
+		sdk.NewCoin("UKEX", sdkmath.NewInt(1_000_000_000)), sdk.NewCoin("FROZEN", sdkmath.NewInt(1_000_000_000)), sdk.NewCoin("UETH", sdkmath.NewInt(1_000_000_000)),
+		sdk.NewCoin("UBTC", sdkmath.NewInt(1_000_000_000)), sdk.NewCoin("XETH", sdkmath.NewInt(1_000_000_000)), sdk.NewCoin("TKA", sdkmath.NewInt(1_000_000_000)),
+		sdk.NewCoin("ukexx", sdkmath.NewInt(1_000_000_000)), sdk.NewCoin("ubt", sdkmath.NewInt(1_000_000_000)))
+}
+
+// lookalike returns a denomination that differs from d only in letter case, or is a one-letter extension / truncation
+// of it: a distinct coin that no registry entry or freeze list names.
+func lookalike(r *Rec, d string) string {
+	switch {
+	case d == "ukex" && r.Rng.Intn(2) == 0:
+		return "ukexx"
+	case d == "ubtc" && r.Rng.Intn(2) == 0:
+		return "ubt"
+	}
+	return strings.ToUpper(d)
 }
 
 var anteDenoms = []string{"frozen", "tka", "ubtc", "ueth", "ukex", "xeth"}
